@@ -563,6 +563,22 @@ def _r6_4(prog: Program, res: Result) -> None:
             src = _unordered_through(c.args[0], fn)
             if src is None:
                 continue
+            a0 = c.args[0]
+            if isinstance(a0, ast.Call) and isinstance(a0.func, ast.Attribute) and a0.func.attr == "items" and not a0.args:
+                # the entries of a dict filled while iterating a set come in the set's order; the dict key is the one
+                # component that is different in every entry, so a sort forgets that order iff its key contains it
+                n_sites += 1
+                comps = _key_components(prog, fn, key)
+                text = f"{c.func.id}({short(a0, 40)}, key={short(key, 50)})"
+                if comps is None:
+                    res.undecided("R6.4", fn.loc(c), fn.fq, text, "sort key is not a lambda or a one-parameter repository function")
+                    continue
+                ok = "*" in comps or 0 in comps
+                res.decide(ok, "R6.4", fn.loc(c), fn.fq, text,
+                           "the sort key contains the dict key, which is different in every entry: ties are impossible, the insertion order is forgotten" if ok else
+                           f"the entries of a dict filled in the iteration order of a set ({short(src, 40)}) are sorted by a key that does not contain the dict key: "
+                           "entries with equal sort keys keep the insertion order, which is the set's hash / address order and differs between processes")
+                continue
             built = _tuple_arity(c.args[0], fn)
             if built is None or not built.elts:
                 # a set of syntax nodes ordered by position: the line number alone does not tell apart two nodes on one line
@@ -628,6 +644,10 @@ VARIANTS = [
     Variant("alias-sort-key-without-tie-breaker", "FIRE", "fixes",
             "        names = sorted(\n            {(alias.name, alias.asname) for alias in node.names},\n            key=lambda t: (t[0], t[1] is not None, t[1]),\n        )",
             "        names = sorted(\n            {(alias.name, alias.asname) for alias in node.names},\n            key=lambda t: (t[0], t[1] is not None),\n        )", "R6.4"),
+    Variant("dict-entries-ordered-by-size-only", "FIRE", "abstractions",
+            "    for code, nodes in sorted(code_node_mapping.items(), key=lambda t: t[0]):", "    for code, nodes in sorted(code_node_mapping.items(), key=lambda t: len(t[1]), reverse=True):", "R6.4"),
+    Variant("dict-entries-ordered-by-size-then-key", "SILENT", "abstractions",
+            "    for code, nodes in sorted(code_node_mapping.items(), key=lambda t: t[0]):", "    for code, nodes in sorted(code_node_mapping.items(), key=lambda t: (-len(t[1]), t[0])):"),
     Variant("alias-sort-key-whole-tuple-with-none-last", "SILENT", "fixes",
             "        names = sorted(\n            {(alias.name, alias.asname) for alias in node.names},\n            key=lambda t: (t[0], t[1] is not None, t[1]),\n        )",
             "        names = sorted(\n            {(alias.name, alias.asname) for alias in node.names},\n            key=lambda t: (t[0], t[1] or \"\"),\n        )"),
